@@ -19,7 +19,7 @@ pub fn feed_cfg(rng: &mut Rng) -> DeployCfg {
     DeployCfg {
         collateral: Collateral::Cw20 { decimals: 6 },
         feed: FeedKind::Real,
-        vamms: vec![VammCfg { quote_reserve: 1000 * d, base_reserve: 100 * d, toll: 0, spread: 0, fluct: 0, funding_period: 3600, decimals: None, live: true, unwired: false }],
+        vamms: vec![VammCfg { quote_reserve: 1000 * d, base_reserve: 100 * d, toll: 0, spread: 0, fluct: 0, funding_period: 3600, decimals: None, live: true, unwired: false, foreign_fund: false }],
         initial_ratio: 50_000,
         maint_ratio: 50_000,
         liq_fee: 25_000,
